@@ -330,6 +330,26 @@ fn near_limit_program(rng: &mut StdRng, limit: usize) -> Vec<u8> {
         for _ in 0..(want.saturating_sub(1) / 2).min(600) {
             c.extend([0x33, 0x01]);
         }
+        match rng.gen_range(0..5) {
+            0 => {
+                // v as the destination of a bulk copy of one or two words
+                let op = *[0x37u8, 0x39, 0x3e].choose(rng).unwrap();
+                c.extend([0x60, *[0x20u8, 0x40].choose(rng).unwrap(), 0x60, 0x00, 0x82, op]);
+            }
+            1 => {
+                // v (and a copy of it) put into memory and returned, hashed or logged as one slice
+                c.extend([0x80, 0x60, 0x00, 0x52, 0x80, 0x60, 0x20, 0x52, 0x60, 0x40, 0x60, 0x00]);
+                match rng.gen_range(0..3) {
+                    0 => {
+                        c.push(0xf3);
+                        return c;
+                    }
+                    1 => c.extend([0x20, 0x50]),
+                    _ => c.push(0xa0),
+                }
+            }
+            _ => {}
+        }
         let slot = round % 2;
         c.extend([0x60, slot, 0x55, 0x60, slot, 0x54]); // sstore(slot, v); sload(slot)
         match rng.gen_range(0..4) {
